@@ -38,6 +38,8 @@ type Thunk struct {
 //     every outcome must equal the baseline (and, in the -race build, the race detector
 //     watches the library's internals meanwhile). Every other round is focused: a handful of
 //     groups is drawn and four goroutines at a time call only the thunks of one group.
+//  4. every thunk once more in order after the concurrent rounds: what they (and the traffic
+//     beside them) left behind must not matter either.
 //
 // A panic inside a thunk is rendered as an outcome, so it is compared like any other.
 // ChurnHook, when set, is called between the baseline and the repeated passes: unrelated
@@ -179,6 +181,15 @@ func (w *W) Purity(class string, thunks []Thunk, G, rounds int) {
 		}
 	}
 	w.Cover("purity/" + class + "/concurrent")
+	// 4. once more in order, now that the concurrent rounds (and the traffic beside them) are over
+	for i := range thunks {
+		if got := run(i); got != base[i] {
+			report("order-dependent", i, got, map[string]any{"pass": "in order, after the concurrent rounds"})
+			checked("afterwards", i, got, nil)
+		}
+		w.Eval(1)
+	}
+	w.Cover("purity/" + class + "/afterwards")
 	if len(groupIDs) > 0 && rounds >= 2 {
 		w.Cover("purity/" + class + "/concurrent-focused")
 		w.Count("purity/groups/"+class, int64(len(groupIDs)))
